@@ -274,6 +274,11 @@ def known_class(r, text):
     """Known (recorded, not repaired) crash classes of the compile stage, identified by the
     panicking file, the kind of message and a textual feature of the input (line numbers are
     deliberately not part of the key)."""
+    # an array size (type or repeat count) of 2^32 or more: usize has 32 bits in circuits, the checker accepts the
+    # number and the compiler dies on it (capacity overflow / multiplication overflow / allocation / deadline)
+    big = any(int(n) >= 2 ** 32 for n in re.findall(r";\s*(\d{10,20})(?:usize)?\s*\]", text))
+    if big and (r.startswith(("(abort", "(timeout")) or "capacity overflow" in r or "with overflow" in r):
+        return "compile-absurd-array-size"
     m = re.search(r"\(crash \"([a-z_]+\.rs):\d+\" \"((?:[^\"\\]|\\.)*)\"", r)
     if not m:
         # a `const { a - b }` array size with a < b wraps to a size near 2^32 (const arithmetic wraps by design,
@@ -540,6 +545,9 @@ def run(ck):
         for kind, t in nesting(d):
             add_front("nesting", t)
     # DESIGN.md §6-31 (known finding, recorded once): one probe beyond the bound
+    # known finding compile-absurd-array-size, recorded once: two immediate panics
+    add_front("absurd-array-size-probe", "pub fn main(b: bool) -> bool { b & [true; 18446744073709551615][1] }")
+    add_front("absurd-array-size-probe", "pub fn main(p: [u8; 18446744073709551615], q: u8) -> u8 { q }")
     add_front("deep-nesting-probe", "pub fn main(x: u8) -> u8 { " + "(" * 20000 + "x" + ")" * 20000 + " }")
     seen = set()
     fj = []
